@@ -308,7 +308,9 @@ def catalogue(spec, model):
         cat['kappa_irr'] = dict(comp='temperature', valid=(0.5 * t['kappa_irr'], 2.0 * t['kappa_irr']),
                                 invalid=dict(cls='guillot', edge=0.0, beyond=0.0, linear_only=True, face_only=True))
         cat['kappa_v1'] = dict(comp='temperature', valid=(0.5 * t['kappa_v1'], 2.0 * t['kappa_v1']))
-        cat['alpha'] = dict(comp='temperature', valid=(0.05, 0.95))
+        # alpha above one is not rejected by the package (open finding of C12): the profile is then NaN for part of the
+        # range -- a model that is NaN in every bin without any exception.  'probe': priors may reach into that range.
+        cat['alpha'] = dict(comp='temperature', valid=(0.05, 0.95), probe=(0.95, 2.0))
     nmol = len(spec['gases'])
     maxmix = 0.9 / (len(spec['tables']) + 2)
     for g in spec['gases']:
@@ -337,6 +339,9 @@ def declare_prior(rng, name, entry, with_invalid, kind=None):
     lo, hi = entry['valid']
     inv = entry.get('invalid') if with_invalid else None
     kinds = list(PRIOR_KINDS)
+    probe = entry.get('probe') if rng.random() < 0.5 else None
+    if probe is not None:
+        kinds = ['mode-linear', 'Uniform']
     if inv is not None:
         kinds = ['mode-linear', 'Uniform'] if inv.get('linear_only') else ['mode-linear', 'mode-log', 'Uniform', 'LogUniform']
     kind = kind if kind in kinds else kinds[rng.integers(0, len(kinds))]
@@ -355,6 +360,9 @@ def declare_prior(rng, name, entry, with_invalid, kind=None):
     if x1 - x0 < 0.2:
         x0, x1 = 0.1, 0.9
     p0, p1 = a + (b - a) * x0, a + (b - a) * x1
+    if probe is not None:
+        p1 = float(probe[1])                 # the prior reaches beyond the valid range (values there are labelled 'gray')
+        d['probe'] = True
     if inv is not None:
         edge = tf(inv['edge']) if space == 'log' else inv['edge']
         beyond = tf(inv['beyond']) if space == 'log' else inv['beyond']
